@@ -1474,6 +1474,10 @@ impl<'a> Evaluator<'a> {
                                 return self.eval_fn_body(body, &mut e2);
                             }
                         }
+                        // conversions that leave the abstract value as it is
+                        if ["String::as_str", "String::as_ref", "String::from", "String::clone", "str::to_string", "str::to_owned", "ToString::to_string", "ToOwned::to_owned", "Clone::clone", "AsRef::as_ref", "Into::into", "From::from"].contains(&name.as_str()) && args.len() == 1 {
+                            return Ok(args[0].clone());
+                        }
                         if is_upper_first(&last) {
                             Ok(Val::Ctor(last, args.to_vec(), BTreeMap::new()))
                         } else {
@@ -1513,6 +1517,10 @@ impl<'a> Evaluator<'a> {
                     }
                 }
                 self.eval(&cl.body, &mut e2)
+            }
+            syn::Expr::Path(_) => {
+                let mut e2 = env.clone();
+                self.apply_closure_mut(c, args, &mut e2)
             }
             _ => Err("expected closure".into()),
         }
